@@ -210,6 +210,8 @@ def confirm(c, nd, nr):
         return o.get('kind') == 'ok' and o.get('value') == exp[1]
     return any(not same(o) for o in obs.values()), obs
 
+# flatten/projection forms whose defects need three levels of arrays (e.g. flattening two levels instead of one)
+ALWAYS_DEEP = {'[]', '[][]', '[].a', 'a[]', 'a[][]', '*[]', 'a.*[]', 'a[*][]', 'a[][*]', '[*][*]', 'a[*][*]', 'a[][0]', 'a[0][]', '[a, b][]', 'a[] | [0]', '(a[])[0]'}
 def catalogue():
     return [l.strip() for l in open(os.path.join(build.VERIF, 'catalogue', 'core.txt')) if l.strip() and not l.startswith('#')]
 
@@ -224,7 +226,7 @@ def run(run):
     jobs = []
     quick = run.tier == 'quick'; cap = 700 if quick else 25000
     for i, e in enumerate(cat):
-        deep = (not quick) or ((i + run.seed) % 6 == 0)
+        deep = (not quick) or ((i + run.seed) % 6 == 0) or e in ALWAYS_DEEP
         jobs.append((e, 3 if deep else 2, 2, dl, 'catalogue', cap))
     for i, e in enumerate(comp):
         if quick and (i + run.seed) % 3 != 0: continue
@@ -239,7 +241,7 @@ def run(run):
     from . import symast as SA
     jobs = [('expr',) + j for j in jobs]
     if quick:
-        ajobs = [('ast', k, (), 1, 2, dl, 10**7, True) for k in SA.COMPOUND if k != 'Comparison']
+        ajobs = [('ast', k, (), 1, 2, dl, 10**7, True) for k in SA.COMPOUND if k != 'Comparison'] + [('ast', 'Flatten', (), 1, 3, dl, 10**7, True), ('ast', 'Projection', ('Flatten',), 2, 3, dl, 30000, True)]
         ajobs = [('ast', 'Comparison', (c1, c2), 1, 1, dl, 10**7, True) for c1 in ['Identity', 'Field', 'Index', 'Literal'] for c2 in ['Identity', 'Field', 'Index', 'Literal']] + ajobs
     else:
         ajobs = []
